@@ -30,13 +30,9 @@ def scenarios(tier):
                 (2, False, 0.25, 'slow')]
     else:
         cfgs = []
-        for n0 in (1, 2):
-            for w in (0.0, 0.25):
-                for pat in ('obedient', 'slow', 'stubborn', 'first-stubborn'):
-                    cfgs.append((n0, False, w, pat))
-        for w in (0.0, 0.25):
-            for pat in ('obedient', 'stubborn'):
-                cfgs.append((1, True, w, pat))
+        cfgs = [(1, False, 0.0, 'obedient'), (2, False, 0.0, 'first-stubborn'), (1, True, 0.0, 'obedient'),
+                (2, False, 0.25, 'slow'), (2, False, 0.0, 'stubborn'), (1, False, 0.25, 'stubborn'),
+                (2, False, 0.25, 'obedient'), (1, True, 0.25, 'stubborn'), (3, False, 0.0, 'obedient')]
     for n0, single, w, pat in cfgs:
         out.append(Scenario('hist', n0=n0, singleton=single, w=w, pat=pat, max_age=0, tier=tier))
     out.append(Scenario('hist', n0=2, singleton=False, w=0.0, pat='obedient', max_age=2, tier=tier))
@@ -46,19 +42,18 @@ def scenarios(tier):
 
 
 def plan(tier, gen):
-    """Deviation budget of a burst in generation `gen`: (requests, deaths)."""
+    """(request budget, death budget, deviation bound) of a burst in generation `gen`."""
     if tier == 'quick':
-        return {1: (1, 1)}.get(gen, (1, 0) if gen == 2 else (0, 0))
-    return {1: (1, 2), 2: (1, 1)}.get(gen, (1, 0))
+        return {1: (1, 1, 2)}.get(gen, (1, 0, 1))
+    return {1: (1, 1, 2), 2: (1, 1, 1)}.get(gen, (1, 0, 1))
 
 
 def bound(tier, scn, gen=1):
-    r, d = plan(tier, gen)
-    return r + d
+    return plan(tier, gen)[2]
 
 
 def bounds(tier):
-    return {'generations': GRAPH[tier], 'burst_per_generation(requests,deaths)': {str(g): plan(tier, g) for g in range(1, GRAPH[tier] + 1)},
+    return {'generations': GRAPH[tier], 'burst_per_generation(requests,deaths,bound)': {str(g): plan(tier, g) for g in range(1, GRAPH[tier] + 1)},
             'numprocesses': '0..3', 'graceful_timeout': G, 'warmup_delay': [0, 0.25],
             'death_statuses': ['exit 1', 'SIGKILL'], 'check_delay': 1.0,
             'patterns': ['obedient', 'slow', 'stubborn', 'first-stubborn']}
@@ -111,7 +106,7 @@ def run(scn, ch):
     tier = scn.tier
 
     def budgets(g):
-        r, d = plan(tier, g)
+        r, d, _ = plan(tier, g)
         return {'req': r, 'die': d}
 
     def on_quiescent(world, res, gen, win):
